@@ -1,8 +1,10 @@
-(* SNAPSHOT: verbatim copy of coq/c01/C01Codec.v at /verif commit c35b7dd (only this banner and the import line differ).
+(* SNAPSHOT: verbatim copy of coq/c01/C01Codec.v at /verif commit 88f92e5 (the last commit touching coq/c01 as of HEAD d7d762b) (only this banner and the import line differ); second
+   snapshot (the first was taken at c35b7dd, before C01 typed esds/uuid/sgpd, proved the general C01_fixpoint and
+   followed the repo repairs 3502d85 (hdlr Size = len(HandlerType)), 954ff09 (senc), 89e24df (SLConfigDescriptor size 0)).
    C19 proves and extracts against this frozen copy because the C01 box model is being extended concurrently (new typed
-   leaves change what its decoder returns for boxes that C19's init tree holds as opaque payloads, e.g. esds), which
-   would turn C19 red through no change of the code under test.  The tie of THIS copy to the Go code is C19's own
-   correspondence: the bytes of InitSegment.Encode are compared with raw_box/encode_seq on every case.
+   leaves change what its decoder returns for boxes that C19's init tree holds as opaque payloads: at this snapshot dac3,
+   dec3, wvtt, stpp), which would turn C19 red through no change of the code under test.  The tie of THIS copy to the Go
+   code is C19's own correspondence: the bytes of InitSegment.Encode are compared with raw_box/encode_seq on every case.
    To follow C01 again: delete the two C19Box*.v files and import V.c01 C01Codec C01Model instead. *)
 (* C01Codec.v — big-endian integer codec over byte lists (list N) and the parser / printer
    combinators shared by the box models of C01 and C02 (other properties import this read-only).
